@@ -172,6 +172,416 @@ theorem C12_dispatch_keeps_ids (c : Cmd) (t : Table) (osm : Bool) :
           | callback => simp [ih]
           | oneShot => simp only []; split <;> simp [ih]
 
+/-! ## whole histories: a waiter is resolved at most once, and never after it was cancelled
+
+    `future.set_result` on a future that is already done raises `InvalidStateError`; that no history of registrations,
+    cancellations, receptions and event-loop step ends (with removal of finished listeners deferred to the step end, so
+    that several commands can arrive in one step) ever resolves a waiter twice, or after its cancellation, is therefore
+    what keeps `frame_received` from raising.  Registration ids stand for listener object identities: fresh. -/
+
+def resolvedOf (os : List Out) : List Nat := os.filterMap fun o => match o with | .resolved i _ => some i | _ => none
+def resolvedIds (outs : List (List Out)) : List Nat := resolvedOf outs.flatten
+def regOf : Ev → List Nat
+  | .waiter i _ => [i]
+  | .callback i _ => [i]
+  | _ => []
+def regIds (evs : List Ev) : List Nat := evs.flatMap regOf
+
+/-- ghost state: the table, the ids registered so far, the ids that are *dead* (resolved or cancelled) -/
+structure G where
+  t : Table
+  S : List Nat
+  D : List Nat
+
+def cancelOf (S : List Nat) : Ev → List Nat
+  | .cancel i => if i ∈ S then [i] else []
+  | _ => []
+
+def gstep (g : G) (e : Ev) : G :=
+  { t := (step g.t e).1, S := g.S ++ regOf e, D := g.D ++ resolvedOf (step g.t e).2 ++ cancelOf g.S e }
+
+def GInv (g : G) : Prop :=
+  (∀ l ∈ g.t, l.id ∈ g.S) ∧ (g.t.map (·.id)).Nodup ∧
+  ∀ i ∈ g.D, i ∈ g.S ∧ ∀ l ∈ g.t, l.id = i → (l.done = true ∨ l.kind = .callback)
+
+theorem runEvents_acc (t : Table) (evs : List Ev) (acc : List (List Out)) :
+    evs.foldl (fun a e => let r := step a.1 e; (r.1, a.2 ++ [r.2])) (t, acc) =
+      ((runEvents t evs).1, acc ++ (runEvents t evs).2) := by
+  induction evs generalizing t acc with
+  | nil => simp [runEvents]
+  | cons e es ih =>
+    simp only [runEvents, List.foldl_cons, List.nil_append]
+    rw [ih, ih (step t e).1 [(step t e).2]]
+    simp [runEvents]
+
+theorem runEvents_cons (t : Table) (e : Ev) (es : List Ev) :
+    runEvents t (e :: es) = ((runEvents (step t e).1 es).1, (step t e).2 :: (runEvents (step t e).1 es).2) := by
+  simp only [runEvents, List.foldl_cons, List.nil_append]
+  rw [runEvents_acc]; simp [runEvents]
+
+theorem runEvents_append (t : Table) (a b : List Ev) :
+    runEvents t (a ++ b) = ((runEvents (runEvents t a).1 b).1, (runEvents t a).2 ++ (runEvents (runEvents t a).1 b).2) := by
+  induction a generalizing t with
+  | nil => simp [runEvents]
+  | cons e es ih => rw [List.cons_append, runEvents_cons, runEvents_cons, ih]; simp
+
+/-- every member of the table after a dispatch is a member before it, possibly marked done; a resolved waiter
+    was pending, and is marked done afterwards -/
+theorem dispatch_members (c : Cmd) (t : Table) (osm : Bool) :
+    (∀ l' ∈ (dispatch c t osm).1, ∃ l ∈ t, l'.id = l.id ∧ l'.kind = l.kind ∧ (l.done = true → l'.done = true)) ∧
+    (∀ i d, Out.resolved i d ∈ (dispatch c t osm).2 →
+      (∃ l ∈ t, l.id = i ∧ l.kind = .oneShot ∧ l.done = false) ∧ ∃ l' ∈ (dispatch c t osm).1, l'.id = i ∧ l'.done = true) := by
+  induction t generalizing osm with
+  | nil => simp [dispatch]
+  | cons l rest ih =>
+    have keep : ∀ osm', (dispatch c (l :: rest) osm') = (l :: (dispatch c rest osm').1, (dispatch c rest osm').2) →
+        (∀ l' ∈ (dispatch c (l :: rest) osm').1, ∃ l0 ∈ l :: rest, l'.id = l0.id ∧ l'.kind = l0.kind ∧ (l0.done = true → l'.done = true)) ∧
+        (∀ i d, Out.resolved i d ∈ (dispatch c (l :: rest) osm').2 →
+          (∃ l0 ∈ l :: rest, l0.id = i ∧ l0.kind = .oneShot ∧ l0.done = false) ∧
+            ∃ l' ∈ (dispatch c (l :: rest) osm').1, l'.id = i ∧ l'.done = true) := by
+      intro osm' h
+      rw [h]
+      constructor
+      · intro l' hl'
+        rcases List.mem_cons.mp hl' with h1 | h1
+        · exact ⟨l, List.mem_cons_self, by rw [h1], by rw [h1], fun hd => by rw [h1]; exact hd⟩
+        · obtain ⟨l0, hl0, h2⟩ := (ih osm').1 l' h1
+          exact ⟨l0, List.mem_cons_of_mem _ hl0, h2⟩
+      · intro i d hm
+        obtain ⟨⟨l0, hl0, h2⟩, ⟨l', hl', h3⟩⟩ := (ih osm').2 i d hm
+        exact ⟨⟨l0, List.mem_cons_of_mem _ hl0, h2⟩, ⟨l', List.mem_cons_of_mem _ hl', h3⟩⟩
+    by_cases h1 : underHeader l c = false
+    · exact keep osm (by rw [dispatch]; simp [h1])
+    have h1' : underHeader l c = true := by simpa using h1
+    by_cases h2 : (osm && l.kind == .oneShot) = true
+    · exact keep osm (by rw [dispatch]; simp only [h1', h2]; simp)
+    by_cases h3 : anyMatch l.patterns c = false
+    · exact keep osm (by rw [dispatch]; simp only [h1', h2, h3]; simp)
+    have h3' : anyMatch l.patterns c = true := by simpa using h3
+    cases hk : l.kind with
+    | callback =>
+      have hd : dispatch c (l :: rest) osm = (l :: (dispatch c rest osm).1, .called l.id c :: (dispatch c rest osm).2) := by
+        rw [dispatch]; simp only [h1', h3', hk]; simp
+      rw [hd]
+      constructor
+      · intro l' hl'
+        rcases List.mem_cons.mp hl' with h4 | h4
+        · exact ⟨l, List.mem_cons_self, by rw [h4], by rw [h4], fun hd => by rw [h4]; exact hd⟩
+        · obtain ⟨l0, hl0, h5⟩ := (ih osm).1 l' h4
+          exact ⟨l0, List.mem_cons_of_mem _ hl0, h5⟩
+      · intro i d hm
+        have hm' : Out.resolved i d ∈ (dispatch c rest osm).2 := by
+          rcases List.mem_cons.mp hm with h4 | h4
+          · cases h4
+          · exact h4
+        obtain ⟨⟨l0, hl0, h5⟩, ⟨l', hl', h6⟩⟩ := (ih osm).2 i d hm'
+        exact ⟨⟨l0, List.mem_cons_of_mem _ hl0, h5⟩, ⟨l', List.mem_cons_of_mem _ hl', h6⟩⟩
+    | oneShot =>
+      have hosm : osm = false := by
+        cases osm with
+        | false => rfl
+        | true => exact absurd (by simp [hk]) h2
+      subst hosm
+      by_cases hdone : l.done = true
+      · exact keep false (by rw [dispatch]; simp only [h1', h3', hk, hdone]; simp)
+      have hdone' : l.done = false := by simpa using hdone
+      have hd : dispatch c (l :: rest) false =
+          ({ l with done := true } :: (dispatch c rest true).1, .resolved l.id c :: (dispatch c rest true).2) := by
+        rw [dispatch]; simp only [h1', h3', hk, hdone']; simp
+      rw [hd]
+      constructor
+      · intro l' hl'
+        rcases List.mem_cons.mp hl' with h4 | h4
+        · exact ⟨l, List.mem_cons_self, by rw [h4], by rw [h4], fun _ => by rw [h4]⟩
+        · obtain ⟨l0, hl0, h5⟩ := (ih true).1 l' h4
+          exact ⟨l0, List.mem_cons_of_mem _ hl0, h5⟩
+      · intro i d hm
+        rcases List.mem_cons.mp hm with h4 | h4
+        · cases h4
+          exact ⟨⟨l, List.mem_cons_self, rfl, hk, hdone'⟩, ⟨{ l with done := true }, List.mem_cons_self, rfl, rfl⟩⟩
+        · exact absurd h4 (dispatch_osm_no_resolved c rest i d)
+
+theorem resolvedOf_length (c : Cmd) (t : Table) (osm : Bool) : (resolvedOf (dispatch c t osm).2).length ≤ 1 := by
+  have h := C12_at_most_one c t osm
+  have : ∀ os : List Out, (resolvedOf os).length = (os.filter fun o => match o with | .resolved _ _ => true | _ => false).length := by
+    intro os
+    induction os with
+    | nil => rfl
+    | cons o os ih => cases o <;> simp [resolvedOf] at ih ⊢ <;> exact ih
+  rw [this]; exact h
+
+theorem mem_resolvedOf (os : List Out) (i : Nat) : i ∈ resolvedOf os ↔ ∃ d, Out.resolved i d ∈ os := by
+  simp only [resolvedOf, List.mem_filterMap]
+  constructor
+  · rintro ⟨o, ho, h⟩
+    cases o with
+    | resolved j d => simp at h; subst h; exact ⟨d, ho⟩
+    | called j d => simp at h
+  · rintro ⟨d, hd⟩; exact ⟨_, hd, rfl⟩
+
+/-- the ids a step resolves are pending one-shot waiters of the table -/
+theorem step_resolved (t : Table) (e : Ev) (i : Nat) (h : i ∈ resolvedOf (step t e).2) :
+    ∃ l ∈ t, l.id = i ∧ l.kind = .oneShot ∧ l.done = false := by
+  cases e with
+  | receive c =>
+    obtain ⟨d, hd⟩ := (mem_resolvedOf _ i).mp h
+    exact ((dispatch_members c t false).2 i d hd).1
+  | waiter _ _ => simp [step, resolvedOf] at h
+  | callback _ _ => simp [step, resolvedOf] at h
+  | cancel _ => simp [step, resolvedOf] at h
+  | settle => simp [step, resolvedOf] at h
+
+theorem nodup_of_length_le_one {α} (l : List α) (h : l.length ≤ 1) : l.Nodup := by
+  match l, h with
+  | [], _ => exact List.nodup_nil
+  | [a], _ => simp
+  | _ :: _ :: _, h => simp at h
+
+theorem step_resolved_nodup (t : Table) (e : Ev) : (resolvedOf (step t e).2).Nodup := by
+  cases e with
+  | receive c => exact nodup_of_length_le_one _ (resolvedOf_length c t false)
+  | waiter _ _ => simp [step, resolvedOf]
+  | callback _ _ => simp [step, resolvedOf]
+  | cancel _ => simp [step, resolvedOf]
+  | settle => simp [step, resolvedOf]
+
+theorem unique_by_id (t : Table) (hn : (t.map (·.id)).Nodup) (a b : Listener) (ha : a ∈ t) (hb : b ∈ t) (h : a.id = b.id) : a = b := by
+  induction t with
+  | nil => cases ha
+  | cons x xs ih =>
+    simp only [List.map_cons, List.nodup_cons] at hn
+    rcases List.mem_cons.mp ha with h1 | h1 <;> rcases List.mem_cons.mp hb with h2 | h2
+    · rw [h1, h2]
+    · exact absurd (List.mem_map.mpr ⟨b, h2, by rw [← h, h1]⟩) hn.1
+    · exact absurd (List.mem_map.mpr ⟨a, h1, by rw [h, h2]⟩) hn.1
+    · exact ih hn.2 h1 h2
+
+theorem ginv_gstep (g : G) (e : Ev) (h : GInv g) (hf : ∀ i ∈ regOf e, i ∉ g.S) : GInv (gstep g e) := by
+  obtain ⟨h1, h2, h3⟩ := h
+  cases e with
+  | waiter id ps =>
+    have hid : id ∉ g.S := hf id (by simp [regOf])
+    refine ⟨?_, ?_, ?_⟩
+    · intro l hl
+      simp only [gstep, step, regOf, List.mem_append, List.mem_singleton] at hl ⊢
+      rcases hl with hl | hl
+      · exact Or.inl (h1 l hl)
+      · right; rw [hl]
+    · simp only [gstep, step, List.map_append, List.map_cons, List.map_nil]
+      refine List.nodup_append.mpr ⟨h2, by simp, ?_⟩
+      intro a ha b hb
+      simp only [List.mem_singleton] at hb
+      obtain ⟨l, hl, rfl⟩ := List.mem_map.mp ha
+      intro heq; exact hid (by rw [hb] at heq; rw [← heq]; exact h1 l hl)
+    · intro i hi
+      simp only [gstep, step, resolvedOf, cancelOf, List.filterMap_nil, List.append_nil] at hi
+      obtain ⟨hiS, hil⟩ := h3 i hi
+      refine ⟨by simp only [gstep]; exact List.mem_append_left _ hiS, ?_⟩
+      intro l hl hli
+      simp only [gstep, step, List.mem_append, List.mem_singleton] at hl
+      rcases hl with hl | hl
+      · exact hil l hl hli
+      · rw [hl] at hli; simp only at hli; rw [hli] at hid; exact absurd hiS hid
+  | callback id ps =>
+    have hid : id ∉ g.S := hf id (by simp [regOf])
+    refine ⟨?_, ?_, ?_⟩
+    · intro l hl
+      simp only [gstep, step, regOf, List.mem_append, List.mem_singleton] at hl ⊢
+      rcases hl with hl | hl
+      · exact Or.inl (h1 l hl)
+      · right; rw [hl]
+    · simp only [gstep, step, List.map_append, List.map_cons, List.map_nil]
+      refine List.nodup_append.mpr ⟨h2, by simp, ?_⟩
+      intro a ha b hb
+      simp only [List.mem_singleton] at hb
+      obtain ⟨l, hl, rfl⟩ := List.mem_map.mp ha
+      intro heq; exact hid (by rw [hb] at heq; rw [← heq]; exact h1 l hl)
+    · intro i hi
+      simp only [gstep, step, resolvedOf, cancelOf, List.filterMap_nil, List.append_nil] at hi
+      obtain ⟨hiS, hil⟩ := h3 i hi
+      refine ⟨by simp only [gstep]; exact List.mem_append_left _ hiS, ?_⟩
+      intro l hl hli
+      simp only [gstep, step, List.mem_append, List.mem_singleton] at hl
+      rcases hl with hl | hl
+      · exact hil l hl hli
+      · rw [hl] at hli; simp only at hli; rw [hli] at hid; exact absurd hiS hid
+  | cancel id =>
+    refine ⟨?_, ?_, ?_⟩
+    · intro l hl
+      simp only [gstep, step, regOf, List.append_nil, List.mem_map] at hl ⊢
+      obtain ⟨l0, hl0, rfl⟩ := hl
+      split <;> exact h1 l0 hl0
+    · simp only [gstep, step, List.map_map]
+      have : (fun l : Listener => (if l.id = id ∧ l.kind = .oneShot then { l with done := true } else l).id) = (·.id) := by
+        funext l; split <;> rfl
+      rw [show ((fun (x : Listener) => x.id) ∘ fun l => if l.id = id ∧ l.kind = .oneShot then { l with done := true } else l) = (·.id) from this]
+      exact h2
+    · intro i hi
+      simp only [gstep, step, resolvedOf, cancelOf, List.filterMap_nil, List.append_nil, regOf] at hi ⊢
+      have key : ∀ l ∈ g.t.map (fun l => if l.id = id ∧ l.kind = .oneShot then { l with done := true } else l),
+          l.id = i → (i ∈ g.D ∨ i = id) → (l.done = true ∨ l.kind = .callback) := by
+        intro l hl hli hor
+        obtain ⟨l0, hl0, rfl⟩ := List.mem_map.mp hl
+        by_cases hc : l0.id = id ∧ l0.kind = .oneShot
+        · simp only [hc, and_self, if_true]; left; trivial
+        · simp only [hc, if_false] at hli ⊢
+          rcases hor with hor | hor
+          · exact (h3 i hor).2 l0 hl0 hli
+          · cases hk : l0.kind with
+            | callback => right; rfl
+            | oneShot => exact absurd ⟨by rw [hli, hor], hk⟩ hc
+      rcases List.mem_append.mp hi with hi | hi
+      · exact ⟨(h3 i hi).1, fun l hl hli => key l hl hli (Or.inl hi)⟩
+      · split at hi
+        · simp only [List.mem_singleton] at hi
+          rename_i hmem
+          exact ⟨by rw [hi]; exact hmem, fun l hl hli => key l hl hli (Or.inr hi)⟩
+        · cases hi
+  | settle =>
+    refine ⟨?_, ?_, ?_⟩
+    · intro l hl
+      simp only [gstep, step, regOf, List.append_nil] at hl ⊢
+      exact h1 l (List.mem_filter.mp hl).1
+    · simp only [gstep, step]
+      exact List.Nodup.sublist (List.Sublist.map _ List.filter_sublist) h2
+    · intro i hi
+      simp only [gstep, step, resolvedOf, cancelOf, List.filterMap_nil, List.append_nil, regOf] at hi ⊢
+      exact ⟨(h3 i hi).1, fun l hl hli => (h3 i hi).2 l (List.mem_filter.mp hl).1 hli⟩
+  | receive c =>
+    have hm := dispatch_members c g.t false
+    have hids := C12_dispatch_keeps_ids c g.t false
+    refine ⟨?_, ?_, ?_⟩
+    · intro l hl
+      simp only [gstep, step, regOf, List.append_nil] at hl ⊢
+      obtain ⟨l0, hl0, hid, _, _⟩ := hm.1 l hl
+      rw [hid]; exact h1 l0 hl0
+    · simp only [gstep, step]; rw [hids]; exact h2
+    · intro i hi
+      simp only [gstep, step, cancelOf, List.append_nil, regOf] at hi ⊢
+      rcases List.mem_append.mp hi with hi | hi
+      · refine ⟨(h3 i hi).1, ?_⟩
+        intro l hl hli
+        obtain ⟨l0, hl0, hid, hkind, hdone⟩ := hm.1 l hl
+        rcases (h3 i hi).2 l0 hl0 (by rw [← hid]; exact hli) with hd | hk
+        · exact Or.inl (hdone hd)
+        · right; rw [hkind]; exact hk
+      · obtain ⟨d, hd⟩ := (mem_resolvedOf _ i).mp hi
+        obtain ⟨⟨l0, hl0, hid0, _, _⟩, ⟨l', hl', hid', hdone'⟩⟩ := hm.2 i d hd
+        refine ⟨by rw [← hid0]; exact h1 l0 hl0, ?_⟩
+        intro l hl hli
+        have : l = l' := unique_by_id _ (by rw [hids]; exact h2) l l' hl hl' (by rw [hli, hid'])
+        rw [this]; exact Or.inl hdone'
+
+def grun (g : G) (evs : List Ev) : G := evs.foldl gstep g
+
+theorem grun_t (g : G) (evs : List Ev) : (grun g evs).t = (runEvents g.t evs).1 := by
+  induction evs generalizing g with
+  | nil => rfl
+  | cons e es ih => rw [runEvents_cons]; simp only [grun, List.foldl_cons]; exact ih (gstep g e)
+
+theorem grun_S (g : G) (evs : List Ev) : (grun g evs).S = g.S ++ regIds evs := by
+  induction evs generalizing g with
+  | nil => simp [grun, regIds]
+  | cons e es ih =>
+    simp only [grun, List.foldl_cons]
+    have := ih (gstep g e)
+    simp only [grun] at this
+    rw [this]; simp [gstep, regIds, List.flatMap_cons]
+
+theorem ginv_grun (g : G) (evs : List Ev) (h : GInv g) (hn : (regIds evs).Nodup) (hf : ∀ i ∈ regIds evs, i ∉ g.S) :
+    GInv (grun g evs) := by
+  induction evs generalizing g with
+  | nil => exact h
+  | cons e es ih =>
+    simp only [regIds, List.flatMap_cons] at hn hf
+    obtain ⟨hn1, hn2, hdisj⟩ := List.nodup_append.mp hn
+    simp only [grun, List.foldl_cons]
+    apply ih (gstep g e) (ginv_gstep g e h (fun i hi => hf i (List.mem_append_left _ hi))) hn2
+    intro i hi
+    simp only [gstep, List.mem_append, not_or]
+    exact ⟨hf i (List.mem_append_right _ hi), fun hr => hdisj i hr i hi rfl⟩
+
+/-- from any ghost state satisfying the invariant: the waiters resolved by the rest of the history are pairwise
+    distinct and none of them is dead -/
+theorem resolved_fresh (g : G) (evs : List Ev) (h : GInv g) (hn : (regIds evs).Nodup) (hf : ∀ i ∈ regIds evs, i ∉ g.S) :
+    (resolvedIds (runEvents g.t evs).2).Nodup ∧ ∀ i ∈ resolvedIds (runEvents g.t evs).2, i ∉ g.D := by
+  induction evs generalizing g with
+  | nil => simp [runEvents, resolvedIds, resolvedOf]
+  | cons e es ih =>
+    simp only [regIds, List.flatMap_cons] at hn hf
+    obtain ⟨hn1, hn2, hdisj⟩ := List.nodup_append.mp hn
+    have hg' := ginv_gstep g e h (fun i hi => hf i (List.mem_append_left _ hi))
+    have hf' : ∀ i ∈ regIds es, i ∉ (gstep g e).S := by
+      intro i hi
+      simp only [gstep, List.mem_append, not_or]
+      exact ⟨hf i (List.mem_append_right _ hi), fun hr => hdisj i hr i hi rfl⟩
+    obtain ⟨ih1, ih2⟩ := ih (gstep g e) hg' hn2 hf'
+    have hsplit : resolvedIds (runEvents g.t (e :: es)).2 =
+        resolvedOf (step g.t e).2 ++ resolvedIds (runEvents (step g.t e).1 es).2 := by
+      rw [runEvents_cons]; simp [resolvedIds, resolvedOf, List.filterMap_append]
+    rw [hsplit]
+    have hhead : ∀ i ∈ resolvedOf (step g.t e).2, i ∉ g.D := by
+      intro i hi hD
+      obtain ⟨l, hl, hli, hk, hd⟩ := step_resolved g.t e i hi
+      rcases (h.2.2 i hD).2 l hl hli with h5 | h5
+      · rw [hd] at h5; cases h5
+      · rw [hk] at h5; cases h5
+    constructor
+    · refine List.nodup_append.mpr ⟨step_resolved_nodup g.t e, ih1, ?_⟩
+      intro a ha b hb heq
+      subst heq
+      exact ih2 a hb (by simp only [gstep]; exact List.mem_append_left _ (List.mem_append_right _ ha))
+    · intro i hi
+      rcases List.mem_append.mp hi with hi | hi
+      · exact hhead i hi
+      · intro hD
+        exact ih2 i hi (by simp only [gstep]; exact List.mem_append_left _ (List.mem_append_left _ hD))
+
+theorem ginv_init : GInv ⟨[], [], []⟩ := ⟨by simp, by simp, by simp⟩
+
+/-- **at most once over the whole history**: whatever the history of registrations (fresh listener identities),
+    cancellations, received commands and event-loop step ends, no waiter is ever resolved twice -/
+theorem C12_history_resolved_once (evs : List Ev) (hfresh : (regIds evs).Nodup) :
+    (resolvedIds (runEvents [] evs).2).Nodup :=
+  (resolved_fresh ⟨[], [], []⟩ evs ginv_init hfresh (by simp)).1
+
+/-- **never after cancellation, never after resolution**: once a registered waiter has been cancelled (`a`, then
+    `cancel i`), nothing in the rest `b` of the history resolves it - so `set_result` is never called on a done future -/
+theorem C12_history_never_after_cancel (a b : List Ev) (i : Nat) (hfresh : (regIds (a ++ .cancel i :: b)).Nodup)
+    (hi : i ∈ regIds a) :
+    i ∉ resolvedIds (runEvents (step (runEvents [] a).1 (.cancel i)).1 b).2 := by
+  have hsplit : regIds (a ++ .cancel i :: b) = regIds a ++ regIds b := by
+    simp [regIds, List.flatMap_append, List.flatMap_cons, regOf]
+  rw [hsplit] at hfresh
+  obtain ⟨hna, hnb, hdisj⟩ := List.nodup_append.mp hfresh
+  have hga := ginv_grun ⟨[], [], []⟩ a ginv_init hna (by simp)
+  have hSa : (grun ⟨[], [], []⟩ a).S = regIds a := by rw [grun_S]; simp
+  have hgc := ginv_gstep (grun ⟨[], [], []⟩ a) (.cancel i) hga (by simp [regOf])
+  have hfb : ∀ j ∈ regIds b, j ∉ (gstep (grun ⟨[], [], []⟩ a) (.cancel i)).S := by
+    intro j hj
+    simp only [gstep, regOf, List.append_nil, hSa]
+    exact fun hr => hdisj j hr j hj rfl
+  have hres := (resolved_fresh _ b hgc hnb hfb).2
+  have ht : (gstep (grun ⟨[], [], []⟩ a) (.cancel i)).t = (step (runEvents [] a).1 (.cancel i)).1 := by
+    simp only [gstep]; rw [grun_t]
+  rw [ht] at hres
+  intro hmem
+  apply hres i hmem
+  simp only [gstep, cancelOf, hSa, hi, if_true]
+  exact List.mem_append_right _ (by simp)
+
+/-- the outputs of a history split at any point: what follows a prefix is the run from the table the prefix leaves -/
+theorem C12_history_split (a b : List Ev) :
+    (runEvents [] (a ++ b)).2 = (runEvents [] a).2 ++ (runEvents (runEvents [] a).1 b).2 := by
+  rw [runEvents_append]
+
+/-- non-vacuity: a waiter cancelled before its response arrives is passed over - the next waiter gets it; a second,
+    identical response in the same event-loop step finds nobody -/
+example : (runEvents [] [.waiter 1 [⟨7, [none]⟩], .waiter 2 [⟨7, [none]⟩], .cancel 1, .receive ⟨7, [some 5]⟩,
+    .receive ⟨7, [some 5]⟩, .settle, .receive ⟨7, [some 5]⟩]).2.drop 3 =
+    [[.resolved 2 ⟨7, [some 5]⟩], [], [], []] := by decide
+example : (regIds [.waiter 1 [⟨7, [none]⟩], .waiter 2 [⟨7, [none]⟩], .cancel 1, .receive ⟨7, [some 5]⟩]).Nodup := by decide
+
 /-! ## non-vacuity: two waiters for the same command, a callback, a waiter for another command;
     two identical responses in one event-loop step go to the two waiters in order -/
 example : (runEvents [] [.waiter 1 [⟨7, [none]⟩], .waiter 2 [⟨7, [some 5]⟩], .callback 3 [⟨7, [none]⟩],
